@@ -118,6 +118,9 @@ FIXED = [
      "is being logged, no reply"),
     ("C03", "C03/internal:ValueError@spartan.py:handle", "20b197a",
      "Spartan request whose content length has more than 4300 digits: int() raises ValueError, no reply"),
+    ("C16", "C16/differs:dir:menu-vs-any:gopher", "80ca1cd",
+     "a gophermap inside an archive linking a member directory with a trailing slash ('1Docs<TAB>docs/'): the sidecar look-up "
+     "'docs//.abstract' succeeds on disk and fails in the archive, so the directory's abstract/keywords blocks are lost there"),
     ("C03", "C03/internal:ValueError@mbox.py:canhandlerequest", "f1b5709",
      "'/x.mbox|/MBOX-MESSAGE/<more than 4300 digits>': int() raises ValueError, no reply"),
     ("C03", "C03/internal:ValueError@scriptexec.py:write", "c29dce8",
